@@ -130,7 +130,7 @@ def rand_struct(rng, n, tag, coeffs=True, labels_pool=("x", "y"), cell=None, max
               typ=typ, chg=[rng.randrange(-3 * QS, 3 * QS, 64) for _ in range(n)], grp=[rng.randrange(0, 3) for _ in range(n)],
               xl=xl, xf=[["%s%d%s" % (tag, i, l) for l in xl] for i in range(n)],
               t_el=["E%s%d" % (tag, i) for i in range(nt)], t_mass=[(10 + i) * QS + 128 for i in range(nt)],
-              t_lab=["L%s%d" % (tag, i) for i in range(nt)], t_pair=(["P%s%d" % (tag, i) for i in range(nt)] if coeffs else []),
+              t_lab=[("L%s%d" % (tag, i)) + ("_a_rather_long_type_label" if (n + i) % 4 == 1 else "") for i in range(nt)], t_pair=(["P%s%d" % (tag, i) for i in range(nt)] if coeffs else []),
               cell=cell)
     for k, t_, c_, x_, l_, ar in KINDS:
         m = (rng.randint(1 if rich else 0, max_terms) if n >= ar else 0)
@@ -207,8 +207,29 @@ def apply_op(A, op):
 _SHARED = {}
 
 
+def bystanders():
+    """two objects built with as few arguments as possible (everything else left to the constructor's defaults); returns them with a
+    snapshot of their state"""
+    from mofun import Atoms
+    with quiet(), contextlib.redirect_stdout(io.StringIO()):
+        b1 = Atoms()
+        b2 = Atoms(elements=["C", "O"], positions=[[0., 0., 0.], [1.25, 0., 0.]])
+    return [(b1, snapshot(b1)), (b2, snapshot(b2))]
+
+
+def snapshot(a):
+    out = {}
+    for k, v in sorted(vars(a).items()):
+        try:
+            out[k] = np.array(v).tolist() if not isinstance(v, (str, int, float, type(None))) else v
+        except Exception:    # noqa
+            out[k] = repr(v)
+    return json.dumps(out, sort_keys=True, default=str)
+
+
 def run_history(init, ops):
     """run ops on the implementation; returns (list of dumped states or ('error', text), per-step error flag)"""
+    others = bystanders()
     A = to_atoms(init)
     st0 = dump(A)
     out = []
@@ -222,6 +243,9 @@ def run_history(init, ops):
         except Exception as e:           # noqa
             out.append(("error", "%s: %s" % (type(e).__name__, e)))
             break
+    for b, snap in others:
+        if snapshot(b) != snap and out and not isinstance(out[-1], tuple):
+            out[-1] = ("error", "an unrelated Atoms object built with default arguments changed while this one was operated on")
     return st0, out
 
 
